@@ -157,7 +157,7 @@ UNITS = [
        # the user's attachments are returned unchanged; sqlite gets an in-memory logica_test only when the user
        # attached none and something is grounded
        ensures=["result == want"], native=gen_attached),
-  unit(U, 'Annotations.CheckAnnotatedObjects', props=['C19'], deductive=False, params=['rules'],
+  unit(U, 'Annotations.CheckAnnotatedObjects', name='Annotations.CheckAnnotatedObjects[bounded]', props=['C19'], deductive=False, params=['rules'],
        ensures=[], raises={'RuleCompileException': "bad"}, native=gen_check_objects),
   unit(P, 'SplitImport', props=['C12'], deductive=False, params=['import_str'],
        ensures=["(str(result[0]), str(result[1]), result[2] and str(result[2])) == want"], native=gen_split_import),
